@@ -410,6 +410,6 @@ func init() {
 		Run:            c20Run,
 		Replay:         c20Replay,
 		QuickBudget:    150 * time.Second,
-		ThoroughBudget: 15 * time.Minute,
+		ThoroughBudget: 8 * time.Minute,
 	})
 }
